@@ -3,7 +3,7 @@ import json, time
 from lib import common, pipeline, programs, cases
 PROP = "C07"
 
-def program(rng):
+def program(rng, final_ei=True):
     """register-transparent-handler friendly program: interrupts enabled, closed DI..EI sections, final EI; HALT."""
     code = [0x31, 0x00, 0xF0, 0xFB]
     def body(n):
@@ -24,10 +24,14 @@ def program(rng):
             else: out += [rng.choice([0x00, 0x07, 0x17, 0x2F, 0x37, 0xEB, 0xD9, 0x08])]
         return out
     code += body(6)
-    if rng.chance(2, 3):
-        code += [0xF3] + body(3) + [0xFB]
+    if final_ei and rng.chance(2, 3):
+        # a closed DI .. EI section, usually containing a block instruction with several repetitions
+        inner = body(2)
+        if rng.chance(2, 3):
+            inner += [0x21, 0x00, 0x40, 0x11, 0x10, 0x40, 0x01, rng.below(6) + 2, 0x00, 0xED, rng.choice([0xB0, 0xB8])]
+        code += [0xF3] + inner + body(1) + [0xFB]
     code += body(5)
-    code += [0xFB, 0x76]
+    code += [0xFB, 0x76] if final_ei else [0x76]
     mem = {programs.ORG + i: b for i, b in enumerate(code)}
     mem.update({0x0800: 0x3C, 0x0801: 0x04, 0x0802: 0xC9})
     for i in range(24):
@@ -43,8 +47,10 @@ def gen(rng, tier):
     n = 14 if tier == "quick" else 300
     k = 0
     for _ in range(n):
-        mem = program(rng)
+        mem_ei = program(rng)
+        mem_noei = program(rng, final_ei=False)   # for NMI: nothing re-enables interrupts after the first EI
         for name, kind, data in KINDS:
+            mem = mem_noei if (name == "nmi" and rng.chance(1, 2)) else mem_ei
             st = programs.start_state(rng, iff=1, im={"im1": 1, "im2": 2, "nmi": rng.choice([0, 1, 2])}.get(name, 0))
             cid = "j%d" % k; k += 1
             base = pipeline.step_line(cid, st, mem=sorted(mem.items()), fill=0x76, nsteps=0, inputs=[rng.below(256) for _ in range(4)])
